@@ -321,6 +321,29 @@ fn gen_source(rng: &mut Rng, w: i32, h: i32) -> SrcSpec {
     s
 }
 
+/// Image sources are sampled in 16.16 fixed point: the image-space coordinates of the surface must
+/// stay inside that range (C13's bound, taken over as a domain decision). Otherwise use a solid.
+fn source_for(rng: &mut Rng, w: i32, h: i32, t: &Transform) -> SrcSpec {
+    let s = gen_source(rng, w, h);
+    if let SrcSpec::Image { transform, .. } = &s {
+        let ok = match T64::from(t).inverse() {
+            None => true, // nothing is drawn under a singular transform
+            Some(inv) => {
+                let m = inv.then(&T64::from(transform));
+                let lim = 30000.;
+                [(0., 0.), (w as f64 + 1., 0.), (0., h as f64 + 1.), (w as f64 + 1., h as f64 + 1.)].iter().all(|c| {
+                    let (x, y) = m.apply(c.0, c.1);
+                    x.abs() < lim && y.abs() < lim
+                }) && [m.a, m.b, m.c, m.d].iter().all(|v| v.abs() < 30000.)
+            }
+        };
+        if !ok {
+            return SrcSpec::Solid(premul_pixel(rng));
+        }
+    }
+    s
+}
+
 fn tweak_stops(rng: &mut Rng, stops: &mut Vec<Stop>) {
     match rng.below(10) {
         0 => {
@@ -431,7 +454,7 @@ fn gen_seq(rng: &mut Rng) -> Seq {
                 let dev = gen_path_dev(rng, w, h);
                 if let Some(u) = to_user_space(&dev, &t, 0.) {
                     let o = DrawOptions { blend_mode: random_mode(rng), alpha: gen_alpha(rng), antialias: if rng.chance(0.6) { AntialiasMode::Gray } else { AntialiasMode::None } };
-                    calls.push(Call::Op(Op::Fill(Path { ops: u, winding: if rng.chance(0.5) { Winding::EvenOdd } else { Winding::NonZero } }, gen_source(rng, w, h), o)));
+                    calls.push(Call::Op(Op::Fill(Path { ops: u, winding: if rng.chance(0.5) { Winding::EvenOdd } else { Winding::NonZero } }, source_for(rng, w, h, &t), o)));
                 }
             }
             13..=17 => {
@@ -455,7 +478,7 @@ fn gen_seq(rng: &mut Rng) -> Seq {
                     let (dash, off) = if rng.chance(0.5) { gen_dash(rng, path_len(&u)) } else { (vec![], 0.) };
                     let st = StrokeStyle { width, cap: *rng.pick(&[LineCap::Butt, LineCap::Round, LineCap::Square]), join: *rng.pick(&[LineJoin::Miter, LineJoin::Round, LineJoin::Bevel]), miter_limit: ml, dash_array: dash, dash_offset: off };
                     let o = DrawOptions { blend_mode: random_mode(rng), alpha: gen_alpha(rng), antialias: if rng.chance(0.6) { AntialiasMode::Gray } else { AntialiasMode::None } };
-                    calls.push(Call::Op(Op::Stroke(Path { ops: u, winding: Winding::NonZero }, gen_source(rng, w, h), st, o)));
+                    calls.push(Call::Op(Op::Stroke(Path { ops: u, winding: Winding::NonZero }, source_for(rng, w, h, &t), st, o)));
                 }
             }
             18 | 19 => {
@@ -473,7 +496,7 @@ fn gen_seq(rng: &mut Rng) -> Seq {
                         let (x, y, rw, rh) = if rng.chance(0.3) { (x.round(), y.round(), rw.round(), rh.round()) } else { (x, y, rw, rh) };
                         let o = DrawOptions { blend_mode: random_mode(rng), alpha: gen_alpha(rng), antialias: AntialiasMode::Gray };
                         if [x, y, x + rw, y + rh].iter().all(|v| v.abs() <= 3990.) || t != Transform::identity() {
-                            calls.push(Call::Op(Op::FillRect(x, y, rw, rh, gen_source(rng, w, h), o)));
+                            calls.push(Call::Op(Op::FillRect(x, y, rw, rh, source_for(rng, w, h, &t), o)));
                         }
                     }
                 }
@@ -488,7 +511,7 @@ fn gen_seq(rng: &mut Rng) -> Seq {
                     2 => (-3000, 3000),
                     _ => (rng.int(-(mw as i64), w as i64 + 1) as i32, rng.int(-(mh as i64), h as i64 + 1) as i32),
                 };
-                calls.push(Call::Op(Op::Mask(gen_source(rng, w, h), x, y, mw, mh, data)));
+                calls.push(Call::Op(Op::Mask(source_for(rng, w, h, &t), x, y, mw, mh, data)));
             }
             23 | 24 => {
                 let (iw, ih) = (rng.int(1, 9) as i32, rng.int(1, 9) as i32);
@@ -784,7 +807,7 @@ pub fn run(ctx: &Ctx) -> Outcome {
 }
 
 fn domain_notes(o: &mut Outcome) {
-    o.assume("domain decisions where the statement is silent: transform scale factors within 1e-4..1e4 (or exactly singular); gradient stop positions increasing (duplicates and values slightly outside [0,1] included); radial radii >= 1e-6; image transforms keep coordinates in the 16.16 range; surfaces <= 64 px; flatten tolerances >= 1e-3");
+    o.assume("domain decisions where the statement is silent: transform scale factors within 1e-4..1e4 (or exactly singular); gradient stop positions increasing (duplicates and values slightly outside [0,1] included); radial radii >= 1e-6; image sources keep the image-space coordinates of the surface within the 16.16 range (else a solid source is used); surfaces <= 64 px; flatten tolerances >= 1e-3");
     o.assume("routine cases stay below 5000 dashes per stroke so that slow-but-bounded rasterisation is not mistaken for a hang; hangs are decided by iteration bounds first and by two isolated re-runs with a 10 minute limit second");
 }
 
